@@ -41,7 +41,7 @@ var Properties = map[string][]string{
 	"C07": {"C07"},
 	"C06": {"C06.a", "C05.c", "C06.c", "C06.e", "C05.e", "C06.g", "C12.b"},
 	"C08": {"C08.a", "C08.b", "C08.c"},
-	"C11": {"C11.a", "C11.b", "C11.c", "C11.g", "C11.h", "C01.d", "C12.d", "C11.p"},
+	"C11": {"C11.a", "C11.b", "C11.c", "C11.g", "C11.h", "C01.d", "C12.d", "C11.p", "C10.sym"},
 	"C12": {"C12.a", "C12.b", "C12.d", "C16.d", "C12.e", "C13.b", "C12.f"},
 	"C13": {"C13.a", "C13.b", "C13.c", "C10.f", "C01.a"},
 	"C17": {"C12.a", "C17.a", "C17.b", "C17.c", "C06.e", "C17.e", "C11.c", "C11.g", "C17.f", "C11.p"},
